@@ -18,6 +18,7 @@ An uncaught exception in a fake process gives exit code 1 and is not propagated,
 """
 import collections
 import contextlib
+import pickle
 import queue as _q
 import threading
 
@@ -204,6 +205,8 @@ class FakeQueue(object):
         self.inflight = 0
         self.rlock = None
         self.closed = set()
+        self.joincancelled = set()
+        self.dropped = 0
         self.nput = 0
         self.nget = 0
 
@@ -285,10 +288,12 @@ class FakeQueue(object):
 
     def join_thread(self):
         me = S.me()
-        S.sync(("join_thread", self.name), lambda: ({"ok": lambda: None} if not self.buf[me] else {}))
+        # after cancel_join_thread() the real join_thread() is a no-op (the finalizer is never set / is cancelled)
+        S.sync(("join_thread", self.name),
+               lambda: ({"ok": lambda: None} if (not self.buf[me] or me in self.joincancelled) else {}))
 
     def cancel_join_thread(self):
-        pass
+        self.joincancelled.add(S.me())
 
 
 def _ensure_feeder(q, owner):
@@ -301,7 +306,16 @@ def _ensure_feeder(q, owner):
             def outs():
                 if q.buf[owner]:
                     def eff():
-                        q.pipe.append(q.buf[owner].popleft())
+                        item = q.buf[owner].popleft()
+                        try:
+                            pickle.dumps(item)      # the real feeder thread pickles here ...
+                        except Exception:  # noqa
+                            # ... and on failure drops the object and gives the slot back (Queue._feed, 3.12)
+                            q.inflight -= 1
+                            q.dropped += 1
+                            _bump()
+                            return True
+                        q.pipe.append(item)
                         _bump()
                         return True
                     return {"flush": eff}
